@@ -26,6 +26,9 @@ var (
 	ErrHeaderDataNotFound = errors.New("Header Data Not Found")
 	ErrWrongPreviousHash  = errors.New("Wrong Previous Hash")
 	ErrNotAncestor        = errors.New("Branch Not Ancestor")
+
+	// ErrBranchContained means all of the headers of the branch are already in other branches.
+	ErrBranchContained = errors.New("Branch Contained")
 )
 
 type Branch struct {
@@ -470,9 +473,12 @@ func (b *Branch) Truncate(ctx context.Context, store storage.Storage,
 	return result, nil
 }
 
-// Connect creates a new branch that connects to the lowest point possible on one of the branches
-// specified. "branches" should be sorted by oldest first so the connection is made to the oldest
-// branch.
+// Connect creates a new branch that connects to one of the branches specified. "branches" should be
+// sorted by oldest first so the connection is made to the oldest branch.
+// The lowest headers of this branch can already be in the branches specified, because they were
+// copied into the new main branch during consolidation. The new branch starts with the first header
+// that is not, so that every header is in one branch only and the branch keeps its real fork
+// height. ErrBranchContained is returned when there is no such header.
 func (b *Branch) Connect(ctx context.Context, store storage.Storage,
 	branches Branches) (*Branch, error) {
 
@@ -480,10 +486,23 @@ func (b *Branch) Connect(ctx context.Context, store storage.Storage,
 		return nil, errors.Wrap(err, "reload")
 	}
 
+	start := 0
+	for start < len(b.headers) {
+		if containing, _ := branches.Find(b.headers[start].Hash); containing == nil {
+			break
+		}
+		start++
+	}
+
+	if start == len(b.headers) {
+		return nil, ErrBranchContained
+	}
+	firstHeader := b.headers[start].Header
+
 	var parent *Branch
 	var parentHeight int
 	for _, branch := range branches {
-		parentHeight = branch.Find(b.firstHeader.PrevBlock)
+		parentHeight = branch.Find(firstHeader.PrevBlock)
 		if parentHeight != -1 {
 			parent = branch
 			break
@@ -494,15 +513,14 @@ func (b *Branch) Connect(ctx context.Context, store storage.Storage,
 		return nil, ErrNotAncestor
 	}
 
-	result, err := NewBranch(parent, parentHeight, b.firstHeader)
+	result, err := NewBranch(parent, parentHeight, firstHeader)
 	if err != nil {
 		return nil, errors.Wrap(err, "new branch")
 	}
 
 	// Add headers after branch
 	height := parentHeight + 2
-	startOffset := height - b.PrunedLowestHeight()
-	for _, header := range b.headers[startOffset:] {
+	for _, header := range b.headers[start+1:] {
 		result.add(header, height)
 		height++
 	}
